@@ -53,6 +53,8 @@ HOURLY_PROFILES = {
     "hourly_adaptive": {"seed": 5, "elasticnet": {"adaptive_weights": True, "adaptive_weight_max_iter": 5, "adaptive_weight_tol": 1e-3}},
     "hourly_adaptive_thresholds": {"seed": 5, "cvrmse_threshold": 0.05, "pnrmse_threshold": 0.05,
                                    "elasticnet": {"adaptive_weights": True, "adaptive_weight_max_iter": 3, "adaptive_weight_tol": 1e-2}},
+    "hourly_supplemental": {"seed": 5, "supplemental_time_series_columns": ["wind", "humidity", "cloud", "aux_b", "aux_a"]},
+    "hourly_supplemental_cat": {"seed": 5, "supplemental_time_series_columns": ["wind", "cloud"], "supplemental_categorical_columns": ["open", "shift"]},
     "hourly_random_sel": {"seed": 5, "elasticnet": {"selection": "random"}},
     "hourly_min_hours0": {"seed": 5, "min_daily_training_hours": 0},
     "hourly_clusters": {"seed": 5, "temporal_cluster": {"n_cluster_upper": 8, "score_metric": "silhouette"}},
@@ -100,13 +102,30 @@ def baseline(draw, family=None, profiles=None, cheap=True, full_year=True, tzs=N
     return b
 
 
+SUPPLEMENTAL = {"hourly_supplemental": {"ts": ["wind", "humidity", "cloud", "aux_b", "aux_a"], "cat": []},
+                "hourly_supplemental_cat": {"ts": ["wind", "cloud"], "cat": ["open", "shift"]}}
+
+
 def raw_frame(b):
     if b["family"] in ("daily", "billing"):
         return synth.daily_frame(n=b["n"], tz=b["tz"], start_day=b["start_day"], noise_seed=b["noise_seed"], usage=b["usage"],
                                  noise=b["noise"], weekend_shift=b["weekend_shift"], season_shift=b["season_shift"],
                                  weather={"south": b["south"]})
-    return synth.hourly_frame(days=b["n"], tz=b["tz"], start_day=b["start_day"], noise_seed=b["noise_seed"], usage=b["usage"],
-                              noise=b["noise"] * 2, ghi=bool(b.get("ghi")), weather={"south": b["south"]})
+    df = synth.hourly_frame(days=b["n"], tz=b["tz"], start_day=b["start_day"], noise_seed=b["noise_seed"], usage=b["usage"],
+                            noise=b["noise"] * 2, ghi=bool(b.get("ghi")), weather={"south": b["south"]})
+    if b.get("profile") in SUPPLEMENTAL:
+        # supplemental columns (complete, deterministic functions of the clock and the seed) the profile trains on
+        rng = np.random.default_rng(b["noise_seed"] + 4242)
+        k = np.arange(len(df))
+        hod = df.index.hour.values
+        for name in SUPPLEMENTAL[b["profile"]]["ts"]:
+            ph = sum(map(ord, name)) % 17
+            df[name] = 5.0 + 3.0 * np.sin((k + ph) / (20.0 + ph)) + rng.gamma(2.0, 1.0, len(df))
+        for name in SUPPLEMENTAL[b["profile"]]["cat"]:
+            df[name] = ((hod >= 8) & (hod < 18)).astype(int) if name == "open" else (df.index.dayofweek.values % 3)
+        obs = df["observed"].values
+        df["observed"] = obs * (1 + 0.02 * df[SUPPLEMENTAL[b["profile"]]["ts"][0]].values / 8.0)
+    return df
 
 
 def data_classes(family):
@@ -188,6 +207,33 @@ def fitted(b, ignore_dq=True):
                 m.fit(data, ignore_disqualification=ignore_dq)
         _FIT[key] = m
     return copy.deepcopy(_FIT[key]), build_baseline(b)
+
+
+def fit_fresh(b, ignore_dq=True):
+    """(the model object that was fitted - not a copy -, its baseline data object). Never memoised: state shared between
+    model objects (class-level containers, caches) stays visible."""
+    data = build_baseline(b)
+    m = new_model(b)
+    with contextlib.redirect_stdout(io.StringIO()):
+        if b["family"] == "caltrack":
+            m.fit(data)
+        else:
+            m.fit(data, ignore_disqualification=ignore_dq)
+    return m, data
+
+
+def decoys(family):
+    """Construct (not fit) unrelated models with other season / weekday maps: a model must not notice."""
+    out = []
+    with contextlib.redirect_stdout(io.StringIO()):
+        if family in ("daily", "billing"):
+            for prof in (("legacy_weekday", "legacy_season", "current") if family == "daily" else ("billing_season", "billing")):
+                out.append(new_model({"family": family, "profile": prof}))
+            from opendsm import eemeter as em
+
+            out.append(em.DailyModel(settings={"weekday_weekend": dict(gp.WEEKDAY_MAPS["fri_sat"])}) if family == "daily" else
+                       em.BillingModel(settings={"weekday_weekend": dict(gp.WEEKDAY_MAPS["fri_sat"])}))
+    return out
 
 
 @st.composite
